@@ -97,9 +97,10 @@ func c12Gen(class string, seed uint64, tier string) *vfScenario {
 			// open os.File, goes on referring to the file it opened
 			at := rng.IntN(len(sc.Ops))
 			ops := append([]vfOp{}, sc.Ops[:at]...)
-			ops = append(ops, vfOp{K: "oobmove", A: int64(rng.IntN(2))})
+			mv := vfOp{K: "oobmove", A: int64(rng.IntN(3))} // 0: the name is gone; 1: a larger file has taken it; 2: an empty one
+			ops = append(ops, mv)
 			for _, op := range sc.Ops[at:] {
-				if op.K == "writeto" {
+				if op.K == "writeto" && mv.A == 0 {
 					// documented: without UseFstat, WriteTo sizes its transfer by a STAT of the path
 					op = vfOp{K: "seek", Off: int64(rng.IntN(5)) - 2, A: 2}
 				}
@@ -176,7 +177,7 @@ func c12History(r *vfRun) {
 	}
 	var mismatch, msig string
 	closed := false
-	moved, invalid := false, false
+	moved, invalid, nameGone := false, false, false
 	closeSeq := -1
 	var handle string
 	tk := vfSpawnTask(sim, 0, len(prog), func(i int) {
@@ -188,15 +189,19 @@ func c12History(r *vfRun) {
 			if v.kind == 0 && v.root != "" && !moved {
 				moved = true
 				os.Rename(v.root+"/f", v.root+"/f.moved")
-				if op.A != 0 {
+				switch op.A {
+				case 1:
 					os.WriteFile(v.root+"/f", make([]byte, len(ref.data)+3), 0o644)
+				case 2:
+					os.WriteFile(v.root+"/f", nil, 0o644)
 				}
+				nameGone = op.A == 0
 				v.served = func() []byte { b, _ := os.ReadFile(v.root + "/f.moved"); return b }
 				sim.count("fault.file_renamed_under_open_handle")
 			}
 			return
 		}
-		if moved && op.K == "writeto" && sc.cfg("fstat", 0) == 0 {
+		if moved && nameGone && op.K == "writeto" && sc.cfg("fstat", 0) == 0 {
 			invalid = true // (a shrunk scenario) see the generator: this call is documented to go by the path
 			return
 		}
